@@ -223,6 +223,17 @@ func (o *ownAnalysis) freshRef(v ssa.Value, depth int) (bool, string) {
 	case *ssa.MakeSlice, *ssa.MakeMap, *ssa.MakeChan:
 		return true, "make"
 	case *ssa.Alloc:
+		// a new cell holding a slice / map / pointer is only as fresh as what is stored into it
+		// (newFacts := new(FactSet); *newFacts = *w.facts copies the header and shares the array)
+		if hasRefs(deref(x.Type()), 0) {
+			if _, isStruct := deref(x.Type()).Underlying().(*types.Struct); !isStruct {
+				for _, st := range storesDirect(x) {
+					if ok, why := o.freshRef(st.Val, depth+1); !ok {
+						return false, "new cell filled with a value that is not fresh: " + why
+					}
+				}
+			}
+		}
 		return true, "new allocation"
 	case *ssa.Slice:
 		if a, ok := x.X.(*ssa.Alloc); ok {
